@@ -336,7 +336,7 @@ pub fn exec_scenario(ctx: &ExecCtx, wd: &Workdir, scn: &Scenario, built: &Built)
         }
         let dump_before = read_dir_map(&dump);
         let (dd_before, ix_before) = if immut {
-            (Some(data_digest(&data)?), Some(dump_index(&data.join("index"), &wd.root.join("ixcopy"))?))
+            (Some(data_digest(&data)?), Some(dump_index_guarded(&data.join("index"), &wd.root.join("ixcopy"))?))
         } else {
             (None, None)
         };
@@ -368,6 +368,23 @@ pub fn exec_scenario(ctx: &ExecCtx, wd: &Workdir, scn: &Scenario, built: &Built)
             c.args(argv_of(scn, r, &data, &dump));
             c
         };
+        if let Some(mb) = r.vlimit_mb {
+            use std::os::unix::process::CommandExt;
+            let bytes = mb * 1024 * 1024;
+            unsafe {
+                cmd.pre_exec(move || {
+                    unsafe extern "C" {
+                        fn setrlimit(resource: i32, rlim: *const [u64; 2]) -> i32;
+                    }
+                    let lim = [bytes, bytes];
+                    // RLIMIT_AS = 9 on Linux
+                    if unsafe { setrlimit(9, &lim) } != 0 {
+                        return Err(std::io::Error::last_os_error());
+                    }
+                    Ok(())
+                });
+            }
+        }
         let mut child = cmd
             .env("RAYON_NUM_THREADS", r.threads.to_string())
             .env("RBP_SIM_PLAN", &plan_path)
@@ -425,7 +442,7 @@ pub fn exec_scenario(ctx: &ExecCtx, wd: &Workdir, scn: &Scenario, built: &Built)
         ctx.run_ns.fetch_add(wall.as_nanos() as u64, Ordering::Relaxed);
         ctx.max_run_ms.fetch_max(wall.as_millis() as u64, Ordering::Relaxed);
         let (dd_after, ix_after) = if immut {
-            (Some(data_digest(&data)?), Some(dump_index(&data.join("index"), &wd.root.join("ixcopy"))?))
+            (Some(data_digest(&data)?), Some(dump_index_guarded(&data.join("index"), &wd.root.join("ixcopy"))?))
         } else {
             (None, None)
         };
